@@ -88,6 +88,13 @@ func (in *Interp) fmtValue(t types.Type, v Value, verb rune, plus bool, depth in
 		case Str:
 			return in.strOrSym(x)
 		case *Term:
+			if !x.IsConst() && x.sort == SBool {
+				// a symbolic bool has only two renderings: fork
+				if in.branch(x) {
+					return "true"
+				}
+				return "false"
+			}
 			if !x.IsConst() {
 				if s, w, signed, _ := scalarSort(t); s == SBV && (verb == 'v' || verb == 'd') && in.symFmtInts {
 					// decimal rendering by the real strconv, interpreted symbolically
